@@ -16,7 +16,7 @@ FINITE_FEATURES = [
     'orth_thread', 'orth_positive', 'err_active_sites', 'err_diag', 'err_thread_nohc', 'err_thread_nocombine',
 ]
 INFINITE_FEATURES = [
-    'combine', 'start_env_sites', 'TM', 'start_env_0', 'noncanonical_init', 'chi_list_inf', 'norm_tol_loop', 'norm_tol_loose', 'rerun_inf',
+    'combine', 'start_env_sites', 'TM', 'start_env_0', 'noncanonical_init', 'chi_list_inf', 'norm_tol_loop', 'norm_tol_loose',
     'resume_seq', 'resume_incompatible_psi', 'resume_other_model', 'tol_trunc_inf', 'err_orth_inf', 'reinit_env_inf', 'resume_seq_chi_list',
 ]
 VUMPS_FEATURES = [
